@@ -12,7 +12,7 @@ Definition kv (x : job) : nat * nat * bool * bool * nat := (jkey x, jctx x, jnoc
 
 Record K (s : state) : Prop := {
   k_stat : forall j x, getj s j = Some x -> jnocse x = false -> jprov x = true;
-  k_pend : forall k j, In (k, j) (pending s) -> exists x, getj s j = Some x /\ kc x = k /\ 1 <= jsubmits x;
+  k_pend : forall k j, In (k, j) (pending s) -> exists x, getj s j = Some x /\ kc x = k /\ 1 <= jsubmits x /\ jnocse x = false;
   k_cov : forall j x, getj s j = Some x -> jnocse x = false -> 1 <= jsubmits x ->
           In (kc x, j) (pending s) \/ exists o, In (kc x, o) (recorded s);
   k_uniq : forall j1 j2 x1 x2, getj s j1 = Some x1 -> getj s j2 = Some x2 ->
@@ -61,7 +61,7 @@ Proof.
   constructor.
   - intros j x' Hx' Hn. destruct (kframe_get _ _ _ _ (conj A (conj B C)) Hx') as (x & Hx & E).
     apply kv_fields in E. destruct E as (E1 & E2 & E3 & E4 & E5). rewrite <- E4. apply (a1 j x Hx). congruence.
-  - intros k j Hin. rewrite B in Hin. destruct (a2 k j Hin) as (x & Hx & Hk & Hs).
+  - intros k j Hin. rewrite B in Hin. destruct (a2 k j Hin) as (x & Hx & Hk & Hs & Hn).
     destruct (kframe_get _ _ _ _ F' Hx) as (x' & Hx' & E). apply kv_fields in E.
     destruct E as (E1 & E2 & E3 & E4 & E5). exists x'. unfold kc in *. repeat split; auto; congruence.
   - intros j x' Hx' Hn Hs. destruct (kframe_get _ _ _ _ (conj A (conj B C)) Hx') as (x & Hx & E).
